@@ -186,6 +186,10 @@ func TestVerifChainRules(t *testing.T) {
 					if na < 1 {
 						na = 1
 					}
+					if r.Intn(12) == 0 {
+						// counts that only differ from an admissible count by a multiple of 256
+						na = []int{255, 256, 256 + int(w.rules.MaxActionsPerTx), 257 + int(w.rules.MaxActionsPerTx), 512, 512 + int(w.rules.MaxActionsPerTx)}[r.Intn(6)]
+					}
 					v.Actions = nil
 					for j := 0; j < na; j++ {
 						a := putAction(r, w)
